@@ -31,6 +31,7 @@ pub async fn read_tcp_bytes(stream: &mut TcpStream) -> Result<BytesMut, TcpError
                         };
                         return Err(TcpError::TooShort {
                             id,
+                            is_response: is_flagged_as_response(&bytes),
                             expected,
                             actual: bytes.len(),
                         });
@@ -41,7 +42,11 @@ pub async fn read_tcp_bytes(stream: &mut TcpStream) -> Result<BytesMut, TcpError
                         } else {
                             None
                         };
-                        return Err(TcpError::IO { id, error: err });
+                        return Err(TcpError::IO {
+                            id,
+                            is_response: is_flagged_as_response(&bytes),
+                            error: err,
+                        });
                     }
                     _ => (),
                 }
@@ -50,9 +55,15 @@ pub async fn read_tcp_bytes(stream: &mut TcpStream) -> Result<BytesMut, TcpError
         }
         Err(err) => Err(TcpError::IO {
             id: None,
+            is_response: false,
             error: err,
         }),
     }
+}
+
+/// Whether the QR flag is set in a (possibly incomplete) message.
+pub fn is_flagged_as_response(octets: &[u8]) -> bool {
+    octets.len() > 2 && octets[2] & 0b1000_0000 != 0
 }
 
 /// An error that can occur when reading a DNS TCP message.
@@ -60,11 +71,13 @@ pub async fn read_tcp_bytes(stream: &mut TcpStream) -> Result<BytesMut, TcpError
 pub enum TcpError {
     TooShort {
         id: Option<u16>,
+        is_response: bool,
         expected: usize,
         actual: usize,
     },
     IO {
         id: Option<u16>,
+        is_response: bool,
         error: io::Error,
     },
 }
